@@ -75,6 +75,7 @@ def cleanup() -> None:
 
 def expand(name: str) -> str:
     sb = sandbox()
+    name = name.replace("$BOUT", sb["layout"]["outside"].replace("/", "\\")).replace("$BPKG", os.path.dirname(sb["layout"]["pkg"]).replace("/", "\\"))
     return name.replace("$OUT", sb["layout"]["outside"]).replace("$ROOT", sb["layout"]["root"]).replace("$BASE", sb["base"])
 
 
@@ -143,7 +144,7 @@ def evaluate(case) -> Verdict:
                 v.fail(f"wrong-content:{cfg['loader']}", f"{label} {case['name']!r}: {path!r} holds {want!r} but the template is {text!r}")
         v.labels.append(f"{mode}:{o[0] if o[0] != 'liquid' else 'not-found'}")
     n = case["name"]
-    v.nontrivial = ".." in n or n.startswith(("/", "$")) or "link_" in n or any(ord(c) < 32 for c in n) or len(n) > 255
+    v.nontrivial = ".." in n or n.startswith(("/", "$", "\\")) or "link_" in n or any(ord(c) < 32 for c in n) or len(n) > 255
     v.labels.append("loader:" + cfg["loader"] + ("+reject" if cfg.get("reject") else ""))
     return v
 
@@ -158,7 +159,7 @@ SEGMENTS = [
     "a\x00b", "a\nb", "\x7f", "x" * 300, "y" * 300 + ".liquid", "~", "C:", "private.liquid", "__init__.py", "templates",
     "root", "only2.liquid", "*", "a.liquid\x00.txt",
 ]
-PREFIXES = ["", "", "", "", "/", "$OUT/", "$ROOT/", "$BASE/", "//", "./", "../", "../../", "$BASE/outside/../outside/"]
+PREFIXES = ["", "", "", "", "/", "$OUT/", "$ROOT/", "$BASE/", "//", "./", "../", "../../", "$BASE/outside/../outside/", "..\\", "..\\..\\", "\\", "$BOUT\\", "$BPKG\\", "..\\outside\\", "..\\..\\outside\\"]
 CONFIGS = [
     {"loader": "fs"}, {"loader": "fs", "ext": ".liquid"}, {"loader": "fs", "reject": True}, {"loader": "fs", "ext": ".liquid", "reject": True, "two": True},
     {"loader": "fs", "two": True}, {"loader": "cfs", "ext": ".liquid"}, {"loader": "cfs", "reject": True}, {"loader": "pkg"},
@@ -169,6 +170,7 @@ FIXED_NAMES = [
     "link_out", "link_dir/secret.liquid", "link_in.liquid", "link_sibling.liquid", "sub/../a.liquid", "sub/../../outside/secret", "./a.liquid", "a.liquid/",
     "", ".", "..", "/", "a\x00b", "x" * 300, "sub/" + "y" * 300 + ".liquid", "$ROOT/a.liquid", "../private.liquid", "$BASE/outside/a.liquid",
     "é.liquid", "é", "with space.liquid", "only2.liquid", "missing", "missing.liquid", "/etc/passwd", "../../../../../../etc/passwd",
+    "..\\private.liquid", "sub\\..\\..\\private.liquid", "..\\..\\outside\\secret.liquid", "$BOUT\\secret.liquid", "sub\\b.liquid", "..\\outside\\secret",
 ]
 
 
@@ -176,7 +178,8 @@ FIXED_NAMES = [
 def cases(draw):
     r = core.rng(draw)
     n = r.choice([1, 1, 2, 2, 3, 4])
-    name = r.choice(PREFIXES) + "/".join(r.choice(SEGMENTS) for _ in range(n)) + r.choice(["", "", "", ".liquid", "/", ".txt"])
+    sep = "\\" if r.random() < 0.12 else "/"  # a backslash is an ordinary file-name character here, never a separator
+    name = r.choice(PREFIXES) + sep.join(r.choice(SEGMENTS) for _ in range(n)) + r.choice(["", "", "", ".liquid", "/", ".txt"])
     return {"name": name, "cfg": r.choice(CONFIGS)}
 
 
@@ -201,7 +204,8 @@ def finish_kwargs(ctx: core.Ctx, tier: str) -> dict:
             "A sandbox tree (search directories with uniquely labelled files, decoy files outside them, symlinks "
             "pointing out of and into the tree, a throw-away Python package) is built per process; names are built "
             "from 36 segments (valid names, '..', '.', empty, link names, unicode, NUL and control characters, "
-            "300-character names) joined by '/', with relative/absolute prefixes and suffixes, plus 33 fixed hostile "
+            "300-character names) joined by '/' (12%: by a backslash, which is an ordinary file-name character on this "
+            "platform), with relative/absolute prefixes (also spelled with backslashes) and suffixes, plus 39 fixed hostile "
             f"names, against {len(CONFIGS)} loader configurations (FileSystemLoader with/without ext, reject_symlinks, "
             "two search paths; CachingFileSystemLoader; PackageLoader), each synchronously and asynchronously. A "
             "result must be TemplateNotFoundError or a template whose path is lexically (and with reject_symlinks "
